@@ -75,7 +75,10 @@ void harness(void)
 }
 #else
 # include "arrstrm.h"
+#if defined VERIF_CBMC
+/* natively (replay) the real src/instant.c is linked instead */
 echs_instant_t echs_instant_add(echs_instant_t b, echs_idiff_t a) { return add_model(b, a); }
+#endif
 
 static struct arrstrm_s E, X;
 
